@@ -2,6 +2,7 @@ package props
 
 import (
 	"fmt"
+	"github.com/blues/jsonata-go/verifhook"
 	"regexp"
 	"strings"
 	"time"
@@ -279,8 +280,16 @@ func init() {
 					c19Check(x, `$toMillis("x2018", "[Y0001]")`, map[string]interface{}{}, nil, true)
 				}
 			}},
-			{Name: "one-clock", Quick: []int{300}, Thorough: []int{2000}, ShardDepth: 1, Run: func(c *explore.Chooser, x *explore.Ctx, n int) {
-				c.Choose(n)
+			{Name: "one-clock", Quick: []int{1}, ShardDepth: 2, Run: func(c *explore.Chooser, x *explore.Ctx, _ int) {
+				// the harness owns the clock (verifhook.Clock): every reading advances it by `step`; the harness reads it
+				// on entry and on return, Eval reads it in between. Enumerated: the sub-millisecond phase of the entry
+				// time, the step, and the program shape.
+				bases := []int64{1509377132000, 0, 4102444800999}
+				fracs := []int64{0, 1, 499999, 500000, 500001, 999999}
+				steps := []int64{0, 1, 300000, 700000, 1500000}
+				base := bases[c.Choose(len(bases))]
+				frac := fracs[c.Choose(len(fracs))]
+				step := steps[c.Choose(len(steps))]
 				form := c.Choose(3)
 				c.Done()
 				prog := []string{
@@ -288,40 +297,56 @@ func init() {
 					`(function(){[$millis(), $toMillis($now())]})() ~> $append([$millis(), $toMillis($now())])`,
 					`$append($map([1,2], function($v){$millis()}), $map([1,2], function($v){$toMillis($now())}))`,
 				}[form]
-				e := jsonata.MustCompile(prog)
-				t0 := time.Now()
-				v, err := e.Eval(nil)
-				t1 := time.Now()
+				desc := fmt.Sprintf("%s with the clock at %d ms + %d ns advancing %d ns per reading", prog, base, frac, step)
+				x.Describe(func() string { return desc })
+				cur := base*1e6 + frac
+				readings := 0
+				verifhook.Clock = func() time.Time {
+					t := time.Unix(0, cur).UTC()
+					cur += step
+					readings++
+					return t
+				}
+				defer func() { verifhook.Clock = nil }()
+				var v interface{}
+				var err error
+				var t0, t1 time.Time
+				if x.Guard(desc, "", func() {
+					e := jsonata.MustCompile(prog)
+					t0 = verifhook.Clock()
+					v, err = e.Eval(nil)
+					t1 = verifhook.Clock()
+				}) {
+					return
+				}
 				x.Eval()
 				x.Validated()
 				if err != nil {
-					x.Violation("value", "clock:"+prog, explore.Detail{Program: prog, Expected: "four readings of the evaluation's clock", Observed: err.Error()})
+					x.Violation("value", "clock:"+desc, explore.Detail{Program: desc, Expected: "four readings of the evaluation's clock", Observed: err.Error()})
 					return
 				}
 				arr, _ := impl.Normalize(v).([]interface{})
 				if len(arr) != 4 {
-					x.Violation("value", "clock:"+prog, explore.Detail{Program: prog, Expected: "four readings", Observed: impl.Render(impl.Normalize(v))})
+					x.Violation("value", "clock:"+desc, explore.Detail{Program: desc, Expected: "four readings", Observed: impl.Render(impl.Normalize(v))})
 					return
 				}
 				first, _ := arr[0].(float64)
 				for _, a := range arr {
 					if f, ok := a.(float64); !ok || f != first {
-						x.Violation("value", "clock:"+prog, explore.Detail{Program: prog, Expected: "every $now() and $millis() of one evaluation denotes the same instant", Observed: impl.Render(arr)})
+						x.Violation("value", "clock:"+desc, explore.Detail{Program: desc, Expected: "every $now() and $millis() of one evaluation denotes the same instant", Observed: impl.Render(arr)})
 						return
 					}
 				}
-				// bracket: only meaningful when wall and monotonic elapsed time agree (no clock step during the sample)
-				wall := t1.Round(0).Sub(t0.Round(0))
-				mono := t1.Sub(t0)
-				if d := wall - mono; d > time.Millisecond || d < -time.Millisecond {
-					return
+				floorMs := func(t time.Time) float64 {
+					s, ns := t.Unix(), int64(t.Nanosecond())
+					return float64(s*1000 + ns/1e6)
 				}
-				lo, hi := float64(t0.UnixNano()/1e6), float64(t1.UnixNano()/1e6)
+				lo, hi := floorMs(t0), floorMs(t1)
 				if first < lo || first > hi {
-					x.Violation("value", "clock-bracket:"+prog, explore.Detail{Program: prog, Expected: fmt.Sprintf("an instant between Eval's entry (%v) and return (%v)", lo, hi), Observed: fmt.Sprint(first)})
+					x.Violation("value", "clock-bracket:"+desc, explore.Detail{Program: desc, Expected: fmt.Sprintf("an instant between Eval's entry (%v ms) and return (%v ms)", lo, hi), Observed: fmt.Sprint(first)})
 				}
 				x.Nontrivial()
-				x.Outcome("clock ok")
+				x.Outcome(fmt.Sprintf("clock ok, %d readings", readings))
 			}},
 		},
 	})
